@@ -39,6 +39,16 @@ CHECKS = {
    text='Seeded exploration over dispatch slots x frame positions x address placements: each contended step must equal its plain twin (T/MEMPTR aside), never be faster, and be slower by exactly the reference ULA delay for the reference bus-cycle list.',
    note='Trusts RefZ80 cycle lists and RefULA (written from the published contention description). For the OTIR/OTDR repeat cycles both readings of "bc" (before/after the decrement of B) are accepted.',
    ref='DESIGN.md section 5, C19'),
+ 'C12': dict(
+   technique='deterministic simulation: producer (bin2tap) -> timed channel (tape deck with seeded delays/polarity/pause/fast-forward) -> consumer (ROM + emitted loaders running in the simulated machine); end-to-end delivery oracle',
+   text='Seeded exploration of binaries, ORG/START/STACK/CLEAR/begin/end, screens, 128K bank sets and simulated-LOAD configurations (engine, fast load, accelerators, pause, polarity, first edge): the tape bin2tap writes is loaded by tap2sna and the snapshot must hold the original bytes, PC and SP (and banks/0x7FFD for 128K).',
+   note='Generator stays inside the envelope the bin2tap man page documents (see DESIGN.md 5/C12 for the conventions used where the man page is silent). Damaged tapes are not part of the property.',
+   ref='DESIGN.md section 5, C12'),
+ 'C13': dict(
+   technique='deterministic simulation: one tape loaded under a lattice of clock-jump/engine configurations (accelerators, DEC-A, fast load, pause, cmio, C/Python, seeded accelerator-set order); literal execution is the reference',
+   text='Seeded exploration of tapes (bin2tap tapes; headerless TZX/PZX turbo blocks loaded by custom loaders built from the code signatures of 39 named accelerators) x configurations: strict group must reproduce the literal execution bit for bit (RAM, registers incl. R and absolute T, hardware state), weak group the loaded bytes, PC and SP.',
+   note='Final state captured at simulator level by wrapping tap2sna.get_state; MEMPTR not compared; scenarios whose reference load fails are discarded and counted; accelerators outside the ROM-like family (14 of 53) are not reached by the custom loaders.',
+   ref='DESIGN.md section 5, C13'),
  'C20': dict(
    technique='deterministic simulation: record/replay with restarts - harness RZX recorder driving a real core, rzxplay on C and Python engines, stop/dump/resume at seeded frames, only the dumped file survives',
    text='Seeded exploration of recordings (programs, frame lengths incl. 1-3-fetch and zero-fetch frames, port readings, repeat markers, snapshot formats, second snapshot+recording pair, recording conventions/--flags), stop points and engine choices: playback must complete without desynchronisation and end in the recorder\'s state, C and Python must agree, resume from the dumped RZX must reach the same state, rzxinfo must list exactly what was recorded.',
